@@ -192,7 +192,7 @@ where
         let mut announced = false;
         let (prefix_len, packet_len) = loop {
             // the length (or even the whole packet) may already be buffered
-            if let Some((length, prefix_len)) = Self::peek_varint(&self.read_buffer) {
+            if let Some((length, prefix_len)) = Self::peek_varint(&self.read_buffer)? {
                 if !announced {
                     // check the length of the packet for any following content
                     if length <= 0 || length > self.max_packet_length {
@@ -255,15 +255,19 @@ where
 
     /// Decodes a varint from the start of the buffer without consuming it. Returns the value and
     /// its encoded length, or none if the buffer does not hold the complete varint yet.
-    fn peek_varint(buffer: &[u8]) -> Option<(VarInt, usize)> {
+    fn peek_varint(buffer: &[u8]) -> Result<Option<(VarInt, usize)>, passage_packets::Error> {
         let mut ans = 0;
         for (i, byte) in buffer.iter().take(5).enumerate() {
             ans |= (i32::from(byte & 0b0111_1111)) << (7 * i);
-            if byte & 0b1000_0000 == 0 || i == 4 {
-                return Some((ans, i + 1));
+            if byte & 0b1000_0000 == 0 {
+                return Ok(Some((ans, i + 1)));
+            }
+            // the fifth group still announced another one: not a varint
+            if i == 4 {
+                return Err(passage_packets::Error::InvalidEncoding);
             }
         }
-        None
+        Ok(None)
     }
 
     #[instrument(skip_all)]
